@@ -65,6 +65,7 @@ fn main() {
     let mut codec = MemcacheBinaryCodec::new(limit);
     let mut buf = BytesMut::with_capacity(4096);
     let mut closed = false;
+    let mut skip_left: usize = 0;
     let rest = pending.into_iter().chain(input.map(|l| l.unwrap()));
     for l in rest {
         let w: Vec<&str> = l.split_whitespace().collect();
@@ -75,13 +76,25 @@ fn main() {
             "len" => { println!("len {}", cache.len()); }
             "feed" => {
                 if closed { println!("ignored-after-close"); continue; }
-                buf.extend_from_slice(&unhex(w.get(1).copied().unwrap_or("")));
+                let mut chunk = unhex(w.get(1).copied().unwrap_or(""));
+                // the connection layer discards the body of an oversized request (C13); this driver has no connection
+                // layer, so it does the same bookkeeping here to stay a reference for pipelines with oversized requests
+                if skip_left > 0 { let n = std::cmp::min(skip_left, chunk.len()); chunk.drain(..n); skip_left -= n; }
+                buf.extend_from_slice(&chunk);
                 loop {
                     let r = std::panic::catch_unwind(std::panic::AssertUnwindSafe(|| codec.decode(&mut buf)));
                     let r = match r { Ok(r) => r, Err(_) => { println!("panic decode"); closed = true; break; } };
                     match r {
                         Ok(Some(req)) => {
                             println!("req {:?}", req);
+                            if let BinaryRequest::ItemTooLarge(_) = &req {
+                                // header fields are pub(crate): read body_length from the Debug text
+                                let d = format!("{:?}", req);
+                                let body: usize = d.split("body_length: ").nth(1).and_then(|t| t.split(|c: char| !c.is_ascii_digit()).next()).and_then(|t| t.parse().ok()).unwrap_or(0);
+                                let n = std::cmp::min(body, buf.len());
+                                bytes::Buf::advance(&mut buf, n);
+                                skip_left = body - n;
+                            }
                             if let BinaryRequest::QuitQuietly(_) = req { println!("closed"); closed = true; break; }
                             let resp = std::panic::catch_unwind(std::panic::AssertUnwindSafe(|| handler.handle_request(req)));
                             let resp = match resp { Ok(r) => r, Err(_) => { println!("panic handler"); closed = true; break; } };
